@@ -131,14 +131,14 @@ def cancelled_before_start_issues_no_request(ctx):
         if isinstance(n, ast.Assign) and any(dotted(t) in ('self._exception', 'self._status') for t in n.targets):
             held = q.locks_held(n)
             g = q.guard_texts(n)
-            ok = 'self._lock' in held and q.guards_imply(q.guards(n), 'not self.done()')
-            ctx.ob(f, n, ok, f'store must be under self._lock and guarded by not self.done() (held={held}, guards={g})')
+            ok = 'self._lock' in held and q.guards_imply(q.guards_under_lock(n, 'self._lock'), 'not self.done()')
+            ctx.ob(f, n, ok, f'store must be under self._lock and guarded by a not-done() test made while the lock is held (held={held}, guards={g})')
     f = ctx.func('futures.TransferCoordinator._transition_to_non_done_state')
     stores = [n for n in own_nodes(f.node) if isinstance(n, ast.Assign) and any(dotted(t) == 'self._status' for t in n.targets)]
     ctx.need(stores, 'no _status store in _transition_to_non_done_state')
     for n in stores:
         g = q.guard_texts(n)
-        ctx.ob(f, n, q.guards_imply(q.guards(n), 'not self.done()') and 'self._lock' in q.locks_held(n),
+        ctx.ob(f, n, q.guards_imply(q.guards_under_lock(n, 'self._lock'), 'not self.done()') and 'self._lock' in q.locks_held(n),
                f'transition to a non-done state must be refused (raise) when done() (guards={g})')
 
 
